@@ -338,6 +338,12 @@ pub fn run_scenario(sc: &Scenario, cfg: &RunCfg, rng: &mut Rng, keys: u64, stats
         };
         let loaded = match load(b, &text, bplan.code_base) {
             Ok(l) => l,
+            Err(LoadErr::Text(v)) if v.msg.contains("ADR target out of the") => {
+                // more than 1 MiB of code between an ADR and its label: a scale limit of the
+                // AArch64 backend, treated like the documented capacity limits
+                stats.discard("aarch64: program larger than the ADR range");
+                continue;
+            }
             Err(LoadErr::Text(v)) => {
                 res.findings.push(Finding {
                     prop: prop_of(Class::Text, b).into(),
